@@ -132,6 +132,10 @@ def mixed_case(draw, tier, ne_share=3, families=base.FAMILIES4, config_kw=None, 
     """General case, with ~ne_share/10 of the cases built so that non-emitting states are needed."""
     sz = gen.sizes(tier)
     ckw = dict(config_kw or {})
+    if ckw.get("ne") is not False and gen.chance(draw, 1):
+        case = draw(gen.long_ne_case(families=families, width=ckw.get("width", "rand"), first_order=ckw.get("first_order", False)))
+        case["gen"] = "long-ne"
+        return case
     if ckw.get("ne") is not False and gen.chance(draw, ne_share):
         case = draw(gen.ne_case(max_nodes=sz["max_nodes"], max_len=sz["max_len"], families=families,
                                 width=ckw.get("width", "rand"), first_order=ckw.get("first_order", False)))
